@@ -46,11 +46,130 @@ def run(c):
     c.cov["selftest_rejected"] = len(f2) == 1
     if len(f2) != 1:
         raise Broken("api self-test failed")
+    run_sequences(c)
     c.assumptions += ["'changed' compares every ref, the number of git objects and what the cache serves about every bug before and after the request",
                       "the router is built like commands/webui.go (gorilla/mux, auth.Middleware only when a user is configured)"]
 
 
+def seq_schedules(c, n):
+    d = c.specdir()
+    cfg = "MBT_ApiSeq_run.cfg"
+    with open(os.path.join(d, cfg), "w") as f:
+        f.write('SPECIFICATION MSpec\nCONSTANTS Labels = {"x", "y"}  Depth = 14\nINVARIANT Emit\nCHECK_DEADLOCK FALSE\n')
+    out, seen = [], set()
+    for rnd in range(1, 8):
+        r = c.tlc("MBT_ApiSeq", cfg, workers=1, simulate=max(30, n // 2), depth=40, timeout=600, label="request sequence generation", seed=c.seed + 31 * rnd)
+        if r.rc != 0:
+            raise Broken("request sequence generation failed:\n" + r.out[-2000:])
+        for v in r.printed():
+            k = json.dumps(v, sort_keys=True)
+            if "reqs" in v and k not in seen:
+                seen.add(k)
+                out.append(v)
+        if len(out) >= n:
+            break
+    return out[:n]
+
+
+def split_sessions(lines):
+    sessions = []
+    for l in lines:
+        if json.loads(l)["ev"] == "Reset":
+            sessions.append([])
+        sessions[-1].append(l)
+    return sessions
+
+
+def validate_sessions(c, sessions, label, max_fail=12):
+    """Concatenated sessions; a rejected session is located from the depth reached, recorded and set aside."""
+    alive, failures = list(range(len(sessions))), []
+    while alive:
+        tf = os.path.join(c.scratch, "tv-%s.ndjson" % label)
+        offs, n = [], 0
+        with open(tf, "w") as f:
+            for i in alive:
+                offs.append((n, i))
+                for l in sessions[i]:
+                    f.write(l + "\n")
+                    n += 1
+        ok, bad, r = tv.validate_file(c, "ApiSeqTrace", "ApiSeqTrace.cfg", tf, label)
+        if ok:
+            break
+        sess, soff = alive[-1], offs[-1][0]
+        for off, i in offs:
+            if off < bad:
+                sess, soff = i, off
+        idx = min(bad - 1 - soff, len(sessions[sess]) - 1)
+        failures.append((sess, idx, json.loads(sessions[sess][idx])))
+        alive.remove(sess)
+        if len(failures) >= max_fail:
+            break
+    return len(alive), failures
+
+
+def run_sequences(c):
+    """ApiSeq.tla: sequences of requests against one bug, with and without a user, judged step by step."""
+    c.tlc_model("MC_ApiSeq", "MC_ApiSeq.cfg", timeout=900, label="every sequence of <= 4 requests (10 kinds x auth x arguments) on one bug")
+    scheds = seq_schedules(c, 45 if c.tier == "quick" else 1500)
+    sf, tf = os.path.join(c.scratch, "apiseq-s.ndjson"), os.path.join(c.scratch, "apiseq-t.ndjson")
+    with open(sf, "w") as f:
+        for s in scheds:
+            f.write(json.dumps(s) + "\n")
+    c.vh(["api-seq", sf, tf], timeout=3000)
+    sessions = split_sessions([l.rstrip("\n") for l in open(tf)])
+    if len(sessions) != len(scheds):
+        raise Broken("api-seq ran %d sessions for %d schedules" % (len(sessions), len(scheds)))
+    n_ok, failures = validate_sessions(c, sessions, "apiseq")
+    c.cov["traces_validated_against_impl"] += n_ok
+    c.cov["request_sequences"] = len(scheds)
+    c.cov["sequence_requests"] = sum(len(s) - 1 for s in sessions)
+    names = {}
+    for s in sessions:
+        for l in s[1:]:
+            e = json.loads(l)
+            key = "%s:%s:%s" % (e["name"], "auth" if e["auth"] else "anon", "refused" if e["refused"] else "done")
+            names[key] = names.get(key, 0) + 1
+    c.cov["sequence_outcomes"] = names
+    for need in ("addCommentAndReopen:auth:done", "changeLabels:auth:refused", "editComment:auth:refused", "setTitle:anon:refused"):
+        if need not in names:
+            raise Broken("request sequences never produced %s" % need)
+    seen = set()
+    for sess, idx, ev in failures:
+        key = "apiseq:%s:%s" % (ev["name"], "auth" if ev["auth"] else "anon")
+        if key in seen:
+            continue
+        seen.add(key)
+        c.report(key, "request #%d of a sequence (repository user: %s), %s %s i=%s +%s -%s: refused=%s [%s] changed=%s authored by the user=%s; returned %s; stored %s" % (
+            idx, ev["configured"], ev["name"], "with a user" if ev["auth"] else "without a user", ev["i"], ev["add"], ev["rem"], ev["refused"], ev["detail"][:100],
+            ev["changed"], ev["byuser"], ev["returned"], ev["stored"]), {"sequence": scheds[sess], "session": sess})
+    good = [s for i, s in enumerate(sessions) if i not in {f[0] for f in failures}]
+    if not good:
+        raise Broken("no accepted request sequence to run the self-test on")
+    evs = [json.loads(x) for x in good[0]]
+    tgt = [e for e in evs if e["ev"] == "Request" and not e["refused"]][0]
+    tgt["stored"]["nops"] += 1
+    n2, f2 = validate_sessions(c, [[json.dumps(e) for e in evs]], "apiseq-selftest", max_fail=1)
+    if len(f2) != 1:
+        raise Broken("api sequence self-test failed")
+
+
 def replay(c, rep):
+    if "sequence" in rep["replay"]:
+        c.cov["states"] = c.cov["transitions"] = 1
+        sf, tf = os.path.join(c.scratch, "apiseq-s.ndjson"), os.path.join(c.scratch, "apiseq-t.ndjson")
+        with open(sf, "w") as f:
+            for _ in range(rep["replay"].get("session", 0) % 3 + 1):      # the session index decides the configured user
+                f.write(json.dumps(rep["replay"]["sequence"]) + "\n")
+        c.vh(["api-seq", sf, tf], timeout=600)
+        sessions = split_sessions([l.rstrip("\n") for l in open(tf)])
+        n_ok, failures = validate_sessions(c, sessions, "replay")
+        for sess, idx, ev in failures:
+            c.report(rep["key"], "request #%d %s: returned %s stored %s [%s]" % (idx, ev["name"], ev["returned"], ev["stored"], ev["detail"][:100]), rep["replay"])
+        return
+    replay_obs(c, rep)
+
+
+def replay_obs(c, rep):
     c.cov["states"] = c.cov["transitions"] = 1
     c.sample(rep["replay"])
     out = os.path.join(c.scratch, "api.ndjson")
